@@ -340,6 +340,7 @@ def deep_snapshot(v, st, memo):
     c = h.copy()
     r = st.alloc(c)
     memo[v.oid] = r
+    st.ghost.setdefault("__orig", {})[r.oid] = v.oid  # identity of a snapshot object = identity of the object it was taken from
     if isinstance(c, HList):
         c.items = [deep_snapshot(x, st, memo) for x in c.items]
     elif isinstance(c, HDict):
